@@ -522,3 +522,50 @@ func (P *Program) closureValue(v ssa.Value, depth int) *ssa.Function {
 	}
 	return nil
 }
+
+// closureCandidates: the functions a function-typed value may be (a literal, a method value, a function; through
+// free variables and the arguments of every call site of a parameter); nil if some origin is unknown.
+func (P *Program) closureCandidates(v ssa.Value, depth int) []*ssa.Function {
+	if depth > 6 {
+		return nil
+	}
+	switch x := v.(type) {
+	case *ssa.MakeClosure:
+		if f, ok := x.Fn.(*ssa.Function); ok {
+			return []*ssa.Function{f}
+		}
+	case *ssa.Function:
+		return []*ssa.Function{x}
+	case *ssa.ChangeType:
+		return P.closureCandidates(x.X, depth+1)
+	case *ssa.FreeVar:
+		if b := P.freeVarBinding(x); b != nil {
+			return P.closureCandidates(b, depth+1)
+		}
+	case *ssa.Parameter:
+		args := P.paramArgs(x)
+		if len(args) == 0 {
+			return nil
+		}
+		var out []*ssa.Function
+		for _, a := range args {
+			fs := P.closureCandidates(a, depth+1)
+			if fs == nil {
+				return nil
+			}
+			out = append(out, fs...)
+		}
+		return out
+	case *ssa.Phi:
+		var out []*ssa.Function
+		for _, e := range x.Edges {
+			fs := P.closureCandidates(e, depth+1)
+			if fs == nil {
+				return nil
+			}
+			out = append(out, fs...)
+		}
+		return out
+	}
+	return nil
+}
